@@ -199,7 +199,16 @@ fn load_known() -> KnownFindings {
 
 fn known_match<'a>(k: &'a KnownFindings, prop: &str, class: &str) -> Option<&'a KnownFinding> {
     let m = |pat: &str| pat == class || (pat.ends_with('*') && class.starts_with(&pat[..pat.len() - 1]));
-    k.findings.iter().find(|f| (f.property == prop || f.property == "*") && (m(&f.class) || f.also.iter().any(|a| m(a))))
+    // a finding listed by the panic that constitutes it (`panic:<file>:<stem>`) is also recognised
+    // through its consequences: the hang it leads to, a caller tripping over the poisoned lock
+    let derived = |f: &KnownFinding| match f.class.strip_prefix("panic:") {
+        Some(rest) => {
+            let rest = rest.trim_end_matches('*');
+            class.starts_with(&format!("hang_after_panic:{rest}")) || class.starts_with(&format!("poisoned_after_panic:{rest}"))
+        }
+        None => false,
+    };
+    k.findings.iter().find(|f| (f.property == prop || f.property == "*") && (m(&f.class) || f.also.iter().any(|a| m(a)) || derived(f)))
 }
 
 /// glibc malloc tuning for worker processes: one arena, never trim, never mmap single allocations.
